@@ -144,7 +144,7 @@ impl<'a> Gen<'a> {
             "polyline" | "polygon" => attrs.push(("points".into(), points(rng))),
             "path" => attrs.push(("d".into(), path_data(rng))),
             "image" => { attrs.push((if rng.chance(1, 2) { "href" } else { "xlink:href" }.into(), "pic.png".into())); let v = plain(rng); opt(rng, &mut attrs, "x", v); attrs.push(("width".into(), size(rng))); attrs.push(("height".into(), size(rng))); }
-            _ => { attrs.push((if rng.chance(1, 2) { "href" } else { "xlink:href" }.into(), "#shape0".into())); let v = num(rng, -20, 20).0; opt(rng, &mut attrs, "x", v); let v = num(rng, -20, 20).0; opt(rng, &mut attrs, "y", v); }
+            _ => { attrs.push((if rng.chance(1, 2) { "href" } else { "xlink:href" }.into(), (*rng.pick(&["#shape0", "#shape0", "#shape1", "#shape2", "#shape3", "#shape4"])).into())); let v = num(rng, -20, 20).0; opt(rng, &mut attrs, "x", v); let v = num(rng, -20, 20).0; opt(rng, &mut attrs, "y", v); }
         }
         presentation(rng, &mut attrs);
         if rng.chance(1, 3) { let id = { self.n += 1; format!("n{}", self.n) }; attrs.insert(0, ("id".into(), id)); }
@@ -400,7 +400,14 @@ pub fn run(rep: &mut Report, tier: &str, seed: u64) -> Result<(), String> {
     for _ in 0..n_doc {
         let mut g = Gen { rng: &mut r1, n: 0 };
         let k = 1 + g.rng.below(6);
-        let mut inner: Vec<X> = vec![X::leaf("rect", &[("id", "shape0"), ("x", "1"), ("y", "2"), ("width", "4"), ("height", "3")])];
+        // targets for <use>: a rect, a circle, an ellipse, a polygon and a path, none of them at the origin
+        let mut inner: Vec<X> = vec![
+            X::leaf("rect", &[("id", "shape0"), ("x", "1"), ("y", "2"), ("width", "4"), ("height", "3")]),
+            X::leaf("circle", &[("id", "shape1"), ("cx", "7"), ("cy", "-3"), ("r", "2.5")]),
+            X::leaf("ellipse", &[("id", "shape2"), ("cx", "-6"), ("cy", "4"), ("rx", "3"), ("ry", "1.5")]),
+            X::leaf("polygon", &[("id", "shape3"), ("points", "-9.5 3.5 9.5 -4 -4.5 3 -8 -6")]),
+            X::leaf("path", &[("id", "shape4"), ("d", "M 8 -9.5 L 0 -3.5 L 3.5 5.5")]),
+        ];
         for _ in 0..k { inner.push(g.node(0)); }
         let doc = format!("<svg>{}</svg>", doc_xml(&inner));
         orc.case(&doc, true, || json!({"document": doc}));
